@@ -183,7 +183,9 @@ STAGE_FILES = {
 def make_data(kind, seed, npts):
     import numpy as np
     rs = np.random.RandomState(seed % (2 ** 32))
-    x = np.sort(rs.uniform(0.5, 3.0, npts))
+    x = rs.uniform(0.5, 3.0, npts)
+    if seed % 2 == 0:
+        x = np.sort(x)          # half of the data sets come sorted by x, half do not
     a, b = rs.uniform(0.5, 2.0), rs.uniform(-1.0, 1.0)
     form = seed % 3
     truth = a * x ** 2 + b if form == 0 else (a / x + b + 2 if form == 1 else a * x + abs(b) + 0.5)
@@ -404,6 +406,19 @@ def gen_table(rng, big=False):
             cl = rng.choice([0.0, 0.5, 1.0, 2.0, round(rng.uniform(-1, 2), 2)])      # (almost) everything finite: > 1000 ranked rows
         rows.append([nll, cl, float(idx[i])] + [rng.choice([0.0, -0.0, 1.0, round(rng.uniform(-3, 3), 4)]) for _ in range(npar)])
     aif = [rng.choice([1.0986123, 2.1972246, 3.2958369, 5.4930614, 2.0]) for _ in range(N)]
+    r = rng.random()
+    if r < 0.12:
+        # description lengths of large magnitude: exp(-DL) under/overflows unless the minimum is subtracted first
+        off = rng.choice([800.0, -800.0, 5000.0, -1500.0])
+        for row in rows:
+            if row[0] == row[0] and abs(row[0]) != float('inf'):
+                row[0] = float('%.7e' % (row[0] + off))
+    if rng.random() < 0.2:
+        # parameters of very small and very large magnitude must survive the per-rank files unchanged
+        for row in rows:
+            for j in range(3, len(row)):
+                if rng.random() < 0.3:
+                    row[j] = rng.choice([3.1234567e-13, -2.5e-21, 7.7e-9, 4.2e+17, -1.0e-300])
     return dict(U=U, N=N, rows=rows, aif=aif, idx=idx)
 
 
@@ -659,6 +674,11 @@ def history_world(args, scratch):
             else:
                 h1, h2 = file_hashes(od_h), file_hashes(od_f)
                 out['hashes'] = h1
+                # a stage must not rewrite its own inputs (otherwise a repeated identical call sees other inputs)
+                hin = file_hashes(H + '/snap/in')
+                for f in ins:
+                    if hin.get(f) != h1.get(f):
+                        probs.append(('fit:' + obs['stage'], 'input-modified:' + f, [f]))
                 bad = sorted(f % comp for f in STAGE_FILES[obs['stage']] if h1.get(f % comp) != h2.get(f % comp))
                 if obs['stage'] == 'test_all' and (obs.get('kw') or {}).get('ignore_previous_eqns'):
                     pf = 'previous_eqns_%d.txt' % comp
